@@ -142,6 +142,8 @@ def c13(tier):
     sp.sp2(P, C)
     # 'completes or throws': every recursion reached from fit bottoms out for every admitted argument (penalty order 0 included)
     rt.rt1(P, C)
+    # the anchor 'variable-length stack arrays sized by the spline order inside the penalty recursion'
+    kb.kb6f(P, C)
     ts.ts2(P, C, only=("fit",), rule_floor=2)
     ts.ts3(P, C, only=("fit",))
     cw.cw1(P, C, only=("splinetable_glamfit",))
